@@ -374,7 +374,11 @@ class Model:
         return self.fmt_text(text, o).encode("utf-8")
 
     def fmt_stdin(self, data: bytes, o: dict[str, Any]) -> str:
-        text = data.decode("utf-8", "surrogateescape")  # no newline translation on POSIX stdin
+        """What the stdin entry points must produce for `data`. The property demands the same bytes
+        as for a file holding `data`, so newlines are read the way file reading reads them
+        (universal newlines); undecodable bytes arrive as surrogates (PYTHONUTF8=1: surrogateescape)."""
+        text = data.decode("utf-8", "surrogateescape")
+        text = text.replace("\r\n", "\n").replace("\r", "\n")
         return self.fmt_text(text, o)
 
     def discriminating(self, data: bytes, o: dict[str, Any]) -> bool:
